@@ -162,6 +162,7 @@ func (e *tlEngine) analyse(f *ssa.Function, ctx map[int]bool, ctxS string) {
 	t.collectA3()
 	t.collectMutTab()
 	t.collectF3()
+	t.collectF13()
 	t.extractSummary()
 	k := e.sumKey(f, ctxS)
 	if old := e.sums[k]; old == nil || old.sig() != sum.sig() || !old.done {
